@@ -14,6 +14,10 @@
 (*          sequence of ar-tuples of integers (real value * Q, Q = 1024)   *)
 (*  mats  : sequence of [n, m] (primitive count, material identity)        *)
 (*  exact : the projection of the real value was exact on the 1/Q lattice  *)
+(*          up to 1e-6 units; bx: bit-exactly on it (no float noise at all:*)
+(*          required of the sources of operations that DECIDE by comparing *)
+(*          values - crop, filter, weld cells, degenerate faces, normals - *)
+(*          where a rotation's 1e-16 noise on a boundary flips the answer) *)
 (*  fp    : fingerprint of the raw float64 bit patterns (frame checks only)*)
 (*                                                                         *)
 (* int32 budget: |coordinate| <= 2^10 real => <= 2^20 scaled; products are *)
@@ -24,14 +28,14 @@ EXTENDS Integers, Sequences, FiniteSets, SequencesExt, FiniteSetsExt, Functions,
 
 Q == 1024
 
-NullMesh == [topo |-> "NULL", idx |-> <<>>, attrs |-> <<>>, mats |-> <<>>, exact |-> TRUE, fp |-> <<>>]
-FailMesh == [topo |-> "FAIL", idx |-> <<>>, attrs |-> <<>>, mats |-> <<>>, exact |-> TRUE, fp |-> <<>>]
+NullMesh == [topo |-> "NULL", idx |-> <<>>, attrs |-> <<>>, mats |-> <<>>, exact |-> TRUE, bx |-> TRUE, fp |-> <<>>]
+FailMesh == [topo |-> "FAIL", idx |-> <<>>, attrs |-> <<>>, mats |-> <<>>, exact |-> TRUE, bx |-> TRUE, fp |-> <<>>]
 IsNull(m) == m.topo = "NULL"
 IsFail(m) == m.topo = "FAIL"
 IsMesh(m) == ~IsNull(m) /\ ~IsFail(m)
 
 MkMesh(topo, idx, attrs, mats) ==
-    [topo |-> topo, idx |-> idx, attrs |-> attrs, mats |-> mats, exact |-> TRUE, fp |-> <<>>]
+    [topo |-> topo, idx |-> idx, attrs |-> attrs, mats |-> mats, exact |-> TRUE, bx |-> TRUE, fp |-> <<>>]
 
 \* the part of a value the contract talks about (fingerprint dropped)
 Core(m) == [topo |-> m.topo, idx |-> m.idx, attrs |-> m.attrs, mats |-> m.mats]
